@@ -10,6 +10,10 @@
 #endif
 
 static long nlines;
+#ifdef HAVE_MXCSR
+static unsigned ftz_saved;
+static int ftz_on; /* the FPU is in flush-to-zero / denormals-are-zero mode while the library runs */
+#endif
 
 static void put_bits(const char* key, const void* p, int n) {
   /* C float/double object -> big-endian bytes of its bit pattern */
@@ -44,7 +48,13 @@ static void one(int w, uint64_t bits) {
     vh_kint("w", iw);
     if (iw == 8) { double v = cbor_float_get_float8(it); put_bits("load", &v, 8); }
     else { float v = iw == 2 ? cbor_float_get_float2(it) : cbor_float_get_float4(it); put_bits("load", &v, 4); }
+#ifdef HAVE_MXCSR
+    if (ftz_on) _mm_setcsr(ftz_saved); /* (the widening getter is arithmetic by nature: not part of what is asked of the library in that mode) */
+#endif
     double gen = cbor_float_get_float(it);
+#ifdef HAVE_MXCSR
+    if (ftz_on) _mm_setcsr(ftz_saved | 0x8040u);
+#endif
     put_bits("gen", &gen, 8);
     /* encoders on the decoded value */
     unsigned char out[12];
@@ -121,13 +131,27 @@ int main(int argc, char** argv) {
   /* the same patterns with the FPU in flush-to-zero / denormals-are-zero mode (as set by -ffast-math start-up code, audio and game
    * engines): a half is never a subnormal single, so an exact decoder and encoder do not depend on that mode */
   {
-    unsigned saved = _mm_getcsr();
-    _mm_setcsr(saved | 0x8040u);
+    ftz_saved = _mm_getcsr();
+    ftz_on = 1;
+    _mm_setcsr(ftz_saved | 0x8040u);
     for (unsigned h = 0; h < 65536; h++) {
       unsigned e = (h >> 10) & 31;
       if (e <= 2 || e >= 29 || h % 16 == 5) one(2, h);
     }
-    _mm_setcsr(saved);
+    /* single- and double-precision subnormals, zeros and the smallest normals: decoding, the own-width getters, the encoders and
+     * cbor_serialize only move bits, so they do not depend on that mode either */
+    static const uint32_t sm[] = {0, 1, 2, 0x000fff, 0x001000, 0x3fffff, 0x400000, 0x400001, 0x7fffff, 0x555555};
+    for (unsigned s = 0; s < 2; s++)
+      for (unsigned e = 0; e < 3; e++)
+        for (unsigned m = 0; m < sizeof sm / sizeof *sm; m++) one(4, s << 31 | e << 23 | sm[m]);
+    for (int k = 0; k < 200; k++) one(4, (uint32_t)vh_rand() & 0x807fffffu);
+    static const uint64_t dmz[] = {0, 1, 2, 0xfffffffffffffull, 0x8000000000000ull, 0x8000000000001ull, 0x5555555555555ull};
+    for (uint64_t s = 0; s < 2; s++)
+      for (uint64_t e = 0; e < 3; e++)
+        for (unsigned m = 0; m < 7; m++) one(8, s << 63 | e << 52 | dmz[m]);
+    for (int k = 0; k < 200; k++) one(8, vh_rand() & 0x800fffffffffffffull);
+    _mm_setcsr(ftz_saved);
+    ftz_on = 0;
   }
 #endif
   /* singles: every exponent x boundary mantissas x sign, strided, random */
